@@ -51,6 +51,10 @@ pub struct RunSpec {
     /// files to create before the run (relative path, content)
     pub files: Vec<(String, Vec<u8>)>,
     pub stdin: Option<Vec<u8>>,
+    /// deliver standard input through a pipe instead of a redirected file
+    pub stdin_pipe: bool,
+    /// named pipes to create (relative path, content fed by a writer)
+    pub fifos: Vec<(String, Vec<u8>)>,
     /// fault plan items (see verif_io.c)
     pub faults: Vec<String>,
     pub rand_seed: u64,
@@ -161,6 +165,8 @@ impl RunSpec {
             "dirs": self.dirs,
             "files": files,
             "stdin": self.stdin.as_ref().map(|b| escape_bytes(b)),
+            "stdin_pipe": self.stdin_pipe,
+            "fifos": self.fifos.iter().map(|(p, c)| json!({"path":p,"content":escape_bytes(c)})).collect::<Vec<_>>(),
             "faults": self.faults,
             "rand_seed": self.rand_seed.to_string(),
             "argv": self.argv(),
@@ -221,6 +227,12 @@ impl RunSpec {
                 .unwrap_or_default(),
             files,
             stdin: v.get("stdin").and_then(|x| x.as_str()).map(unescape_bytes),
+            stdin_pipe: v.get("stdin_pipe").and_then(|x| x.as_bool()).unwrap_or(false),
+            fifos: v
+                .get("fifos")
+                .and_then(|f| f.as_array())
+                .map(|a| a.iter().filter_map(|f| Some((f.get("path")?.as_str()?.to_string(), unescape_bytes(f.get("content")?.as_str()?)))).collect())
+                .unwrap_or_default(),
             faults: v
                 .get("faults")
                 .and_then(|d| d.as_array())
